@@ -75,7 +75,8 @@ def parseBlock (toks : List String) : Option Block := do
   let _ ← kv toks "d"
   let nvs ← kv toks "nv"
   let nv ← (if nvs = "-" then some none else (parseVals nvs).map some)
-  pure ⟨h, id, prev, lc, flaw ≠ 0, nv⟩
+  let mal ← (← kv toks "mal").toNat?
+  pure ⟨h, id, prev, lc, flaw ≠ 0, nv, mal ≠ 0⟩
 
 def showV : VErr → String
   | .size => "size" | .height => "height" | .blockId => "blockid"
@@ -118,6 +119,22 @@ def showHandover : Handover → String
   | .notCaughtUp => "not-caught-up" | .ok => "ok" | .panicNoSeen => "panic-noseen"
   | .panicIndex => "panic-index" | .panicAddr => "panic-addr" | .panicSig => "panic-sig"
   | .panicNoMaj => "panic-nomaj"
+
+/-- does the seen commit stored for the state's last block carry valid for-block signatures of
+more than 2/3 of `LastValidators`? (printed next to a hand-over panic) -/
+def tipQuorum (n : Node) : Bool :=
+  match n.store.find? (fun e => e.1.height = n.st.lastHeight) with
+  | none => false
+  | some (_, c) =>
+    let vs := n.st.lastVals
+    let got : Int := ((vs.zip c.sigs).map fun (v, sg) =>
+      if sg.flag = .commit && sigOK v.key (signBytes c sg) sg.sig then (v.power : Int) else 0).sum
+    c.sigs.length = vs.length && decide (3 * got > 2 * totalPower vs)
+
+def showPanic (n : Node) (h : Handover) : String :=
+  match h with
+  | .notCaughtUp | .ok => showHandover h
+  | _ => showHandover h ++ s!" tipq={tipQuorum n}"
 
 def getNat (toks : List String) (k : String) : Option Nat := (kv toks k).bind String.toNat?
 def getInt (toks : List String) (k : String) : Option Int := (kv toks k).bind String.toInt?
@@ -181,10 +198,10 @@ def stepNode (n : Node) (toks : List String) : Node × String :=
       s!"max={n.pool.maxPeerHeight} caught={n.pool.isCaughtUp} peers={showPeers n.pool} " ++
       s!"conn={natList (sortNat n.connected)}")
   | ["store"] => (n, showStore n)
-  | ["handover"] => (n, showHandover (n.handover sigOK))
+  | ["handover"] => (n, showPanic n (n.handover sigOK))
   | ["restart"] =>
     let (n', r) := n.restart sigOK
-    (n', if r = .ok then s!"ok h={n'.pool.height}" else showHandover r)
+    (n', if r = .ok then s!"ok h={n'.pool.height}" else showPanic n r)
   | _ => (n, "bad-op")
 
 def step (s : Option Node) (toks : List String) : Option Node × String :=
